@@ -204,6 +204,11 @@ func r08NotImplemented(c *core.Ctx, p *load.Program, helpers []*ssa.Function) {
 		ev := ret.Results[eidx]
 		// fallback by delegation: the return value comes from a call (another helper, io/fs function, fs.Open)
 		if cl := callProducing(ev); cl != nil {
+			// io/fs.ReadDir reports a directory handle without ReadDir as errors.New("not implemented"): no sentinel
+			if ssax.CalleeIs(cl, "io/fs", "ReadDir") {
+				c.Bad("R08.3", key, p.Pos(ret.Pos()), fmt.Sprintf("%s falls back to io/fs.ReadDir, which answers a directory handle that cannot list with an error that does not match ErrNotImplemented: the unsupported operation is not reported as such", fname(fn)))
+				continue
+			}
 			c.OK("R08.3", key, p.Pos(ret.Pos()), "falls back to "+ssax.CallName(cl))
 			continue
 		}
